@@ -933,25 +933,249 @@ def gen_dns_cert():
              f"def dnsClientShape : Bool := {'true' if shape else 'false'}",
              "end Elvis.Gen", ""]
     write_if_changed("DnsCert.lean", "\n".join(lines))
+# ---------------------------------------------------------------------------------------------
+# TCB constants (C01 C03 C12 C17) -> Generated/TcbConsts.lean
+# ---------------------------------------------------------------------------------------------
+def duration_ms(expr, what):
+    m = re.fullmatch(r"Duration::from_(secs|millis)\((\d[\d_]*)\)", expr.strip())
+    if not m:
+        raise ExtractError(f"{what}: cannot read duration `{expr.strip()}`")
+    n = int(m.group(2).replace("_", ""))
+    return n * 1000 if m.group(1) == "secs" else n
 
 
-def main():
-    check_message_immutability()
-    gen_sim_cert()
-    subnet_kernels()
-    codec_extract()
-    extract_codec_b()
-    gen_arp()
-    # Generated/Consts.lean is shared: every contributor appends to `consts`
+def const_expr(src, name, what):
+    m = re.search(r"const\s+" + name + r"\s*:\s*[\w:]+\s*=\s*([^;]+);", src)
+    if not m:
+        raise ExtractError(f"{what}: `const {name}` not found")
+    return m.group(1).strip()
+
+
+def extract_tcb_consts():
+    tcb = strip_comments(read(os.path.join(CORE, "protocols", "tcp", "tcb.rs")))
+    rss = strip_comments(read(os.path.join(CORE, "protocols", "tcp", "tcb", "receive_sequence_space.rs")))
+    par = strip_comments(read(os.path.join(CORE, "protocols", "tcp", "tcp_parsing.rs")))
+    msl = duration_ms(const_expr(tcb, "MSL", "tcb.rs"), "MSL")
+    rto = duration_ms(const_expr(tcb, "RETRANSMISSION_TIMEOUT", "tcb.rs"), "RETRANSMISSION_TIMEOUT")
+    sfh = const_expr(tcb, "SPACE_FOR_HEADERS", "tcb.rs")
+    if not re.fullmatch(r"\d+", sfh):
+        raise ExtractError(f"SPACE_FOR_HEADERS is not a literal: {sfh}")
+    # every TIME-WAIT assignment must be 2*MSL
+    tws = re.findall(r"time_wait\s*=\s*Some\(([^)]*)\)", tcb)
+    tws = [t.strip() for t in tws if "delta_time" not in t]
+    if not tws or any(t not in ("MSL * 2", "2 * MSL") for t in tws):
+        raise ExtractError(f"TIME-WAIT timer is not uniformly 2*MSL: {tws}")
+    m = re.search(r"impl Default for ReceiveSequenceSpace\s*\{.*?Self\s*\{\s*irs:\s*(\d+),\s*nxt:\s*(\d+),\s*wnd:\s*([\w:]+),?\s*\}", rss, re.S)
+    if not m or m.group(1) != "0" or m.group(2) != "0":
+        raise ExtractError("ReceiveSequenceSpace::default is not {irs: 0, nxt: 0, wnd: <const>}")
+    wnd = {"u16::MAX": 65535}.get(m.group(3))
+    if wnd is None:
+        if not re.fullmatch(r"\d+", m.group(3)):
+            raise ExtractError(f"default receive window not a literal: {m.group(3)}")
+        wnd = int(m.group(3))
+    words = const_expr(par, "BASE_HEADER_WORDS", "tcp_parsing.rs")
+    octets = const_expr(par, "BASE_HEADER_OCTETS", "tcp_parsing.rs")
+    if not re.fullmatch(r"\d+", words) or octets != "BASE_HEADER_WORDS * 4":
+        raise ExtractError(f"TCP base header constants changed shape: {words} / {octets}")
+    # without the compute_checksum feature the checksum field is the constant 0
+    util = strip_comments(read(os.path.join(CORE, "protocols", "utility.rs")))
+    if not re.search(r'#\[cfg\(not\(feature = "compute_checksum"\)\)\]\s*pub fn as_u16\(&self\) -> u16 \{\s*0\s*\}', util):
+        raise ExtractError("Checksum::as_u16 without compute_checksum is no longer the constant 0")
+    lines = ["-- GENERATED from tcp/tcb.rs, tcb/receive_sequence_space.rs, tcp_parsing.rs by tools/extract.py; do not edit",
+             "namespace Elvis.Gen.Tcb",
+             f"/-- `MSL` in milliseconds -/\ndef mslMs : Nat := {msl}",
+             f"/-- `RETRANSMISSION_TIMEOUT` in milliseconds -/\ndef rtoMs : Nat := {rto}",
+             "/-- every `time_wait = Some(..)` in tcb.rs is `2 * MSL` -/\ndef timeWaitMs : Nat := 2 * mslMs",
+             f"/-- `SPACE_FOR_HEADERS` in `Tcb::segments` -/\ndef spaceForHeaders : Nat := {sfh}",
+             f"/-- `ReceiveSequenceSpace::default().wnd` -/\ndef defaultRcvWnd : Nat := {wnd}",
+             f"/-- `BASE_HEADER_WORDS` -/\ndef baseHeaderWords : Nat := {words}",
+             "/-- `BASE_HEADER_OCTETS = BASE_HEADER_WORDS * 4` -/\ndef baseHeaderOctets : Nat := baseHeaderWords * 4",
+             "/-- `Checksum::as_u16` without the `compute_checksum` feature -/\ndef checksumWithoutFeature : Nat := 0",
+             "end Elvis.Gen.Tcb", ""]
+    write_if_changed("TcbConsts.lean", "\n".join(lines))
+
+
+# ---------------------------------------------------------------------------------------------
+# modular_cmp.rs one-expression kernels -> Generated/ModCmpKernels.lean
+# ---------------------------------------------------------------------------------------------
+KTOK = re.compile(r"\s*(?:(\d[\d_]*)|([A-Za-z_][A-Za-z0-9_]*)|(<<|>>|<=|>=|==|&&|\|\||[-+<>()!,.&|]))")
+
+
+def ktokens(s):
+    out, i = [], 0
+    while i < len(s):
+        m = KTOK.match(s, i)
+        if not m:
+            if s[i:].strip() == "":
+                break
+            raise ExtractError("modular_cmp.rs: cannot tokenise `" + s[i:i + 20] + "`")
+        i = m.end()
+        out.append(("num", m.group(1).replace("_", "")) if m.group(1) else ("id", m.group(2)) if m.group(2) else ("op", m.group(3)))
+    return out
+
+
+class KParser:
+    """|| < && < comparison < shift < postfix method calls; checked + - are refused"""
+
+    def __init__(s, toks, fns):
+        s.t, s.i, s.fns = toks, 0, fns
+
+    def peek(s):
+        return s.t[s.i] if s.i < len(s.t) else ("eof", "")
+
+    def eat(s, v=None):
+        k = s.peek()
+        if v is not None and k[1] != v:
+            raise ExtractError(f"modular_cmp.rs: expected {v} got {k}")
+        s.i += 1
+        return k
+
+    def expr(s):
+        l = s.and_()
+        while s.peek() == ("op", "||"):
+            s.eat()
+            l = f"({l} || {s.and_()})"
+        return l
+
+    def and_(s):
+        l = s.cmp()
+        while s.peek() == ("op", "&&"):
+            s.eat()
+            l = f"({l} && {s.cmp()})"
+        return l
+
+    def cmp(s):
+        l = s.add()
+        if s.peek()[0] == "op" and s.peek()[1] in ("<", ">", "<=", ">=", "=="):
+            op = s.eat()[1]
+            r = s.add()
+            return {"<": f"decide ({l} < {r})", ">": f"decide ({l} > {r})", "<=": f"decide ({l} ≤ {r})",
+                    ">=": f"decide ({l} ≥ {r})", "==": f"({l} == {r})"}[op]
+        return l
+
+    def add(s):
+        l = s.shift()
+        if s.peek()[0] == "op" and s.peek()[1] in "+-":
+            raise ExtractError("modular_cmp.rs: checked +/- is outside the kernel grammar")
+        return l
+
+    def shift(s):
+        l = s.post()
+        while s.peek() == ("op", "<<"):
+            s.eat()
+            l = f"({l} <<< {s.post()})"
+        return l
+
+    def args(s):
+        s.eat("(")
+        a = []
+        while s.peek() != ("op", ")"):
+            a.append(s.expr())
+            if s.peek() == ("op", ","):
+                s.eat()
+        s.eat(")")
+        return a
+
+    def post(s):
+        a = s.atom()
+        while s.peek() == ("op", "."):
+            s.eat()
+            name = s.eat()[1]
+            args = s.args()
+            if name == "wrapping_sub" and len(args) == 1:
+                a = f"({a} - {args[0]})"
+            elif name == "wrapping_add" and len(args) == 1:
+                a = f"({a} + {args[0]})"
+            elif name == "offset" and not args:
+                a = f"(Cmp.offset {a})"
+            else:
+                raise ExtractError("modular_cmp.rs: method " + name)
+        return a
+
+    def atom(s):
+        k = s.eat()
+        if k[0] == "num":
+            return f"({k[1]} : BitVec 32)"
+        if k == ("op", "("):
+            e = s.expr()
+            s.eat(")")
+            return e
+        if k[0] == "id":
+            if s.peek() == ("op", "("):
+                if k[1] not in s.fns:
+                    raise ExtractError("modular_cmp.rs: call of " + k[1])
+                return "(" + " ".join([k[1]] + s.args()) + ")"
+            return k[1]
+        raise ExtractError("modular_cmp.rs: unexpected " + str(k))
+
+
+def extract_modcmp_kernels():
+    src = strip_comments(read(os.path.join(CORE, "protocols", "tcp", "tcb", "modular_cmp.rs"))).split("#[cfg(test)]")[0]
+    fn_re = re.compile(r"pub fn (\w+)\(([^)]*)\)\s*->\s*bool\s*\{(.*?)\n\}", re.S)
+    fns = list(fn_re.finditer(src))
+    names = [m.group(1) for m in fns]
+    want = ["mod_lt", "mod_leq", "mod_gt", "mod_geq", "mod_bounded"]
+    if names != want:
+        raise ExtractError(f"modular_cmp.rs: expected functions {want}, found {names}")
+    m = re.search(r"fn offset\(self\) -> u32 \{\s*match self \{\s*Lt => (\d+),\s*Leq => (\d+),\s*\}\s*\}", src)
+    if not m:
+        raise ExtractError("modular_cmp.rs: ModCmp::offset changed shape")
+    if not re.search(r"pub enum ModCmp \{\s*Lt,\s*Leq,\s*\}", src):
+        raise ExtractError("modular_cmp.rs: enum ModCmp changed")
+    out = ["-- GENERATED from tcp/tcb/modular_cmp.rs by tools/extract.py; do not edit",
+           "namespace Elvis.Gen.ModCmp",
+           "inductive Cmp | Lt | Leq deriving DecidableEq, Repr",
+           f"def Cmp.offset : Cmp → BitVec 32 | .Lt => {m.group(1)} | .Leq => {m.group(2)}"]
+    for f in fns:
+        name, params, body = f.group(1), f.group(2), f.group(3)
+        ps = []
+        for p in params.split(","):
+            n, t = [x.strip() for x in p.split(":")]
+            if t not in ("u32", "ModCmp"):
+                raise ExtractError(f"modular_cmp.rs: parameter type {t}")
+            ps.append(f"({n} : {'BitVec 32' if t == 'u32' else 'Cmp'})")
+        stmts = [x.strip() for x in body.strip().split(";") if x.strip()]
+        lines = []
+        for st in stmts[:-1]:
+            mm = re.match(r"let (\w+) = (.*)$", st, re.S)
+            if not mm:
+                raise ExtractError("modular_cmp.rs: statement `" + st + "`")
+            p = KParser(ktokens(mm.group(2)), names)
+            lines.append(f"  let {mm.group(1)} := {p.expr()}")
+            if p.peek()[0] != "eof":
+                raise ExtractError("modular_cmp.rs: trailing tokens in `" + st + "`")
+        p = KParser(ktokens(stmts[-1]), names)
+        lines.append("  " + p.expr())
+        if p.peek()[0] != "eof":
+            raise ExtractError("modular_cmp.rs: trailing tokens in `" + stmts[-1] + "`")
+        out.append(f"def {name} {' '.join(ps)} : Bool :=\n" + "\n".join(lines))
+    out += ["end Elvis.Gen.ModCmp", ""]
+    write_if_changed("ModCmpKernels.lean", "\n".join(out))
+
+
+def gen_consts():
+    """Generated/Consts.lean is shared: every contributor appends to `consts` here."""
     consts = ["-- GENERATED from /repo sources by tools/extract.py on every check; do not edit", "namespace Elvis.Gen"]
     # C11: reassembly timer lower bound (segment.rs `const TLB: u8 = 15;`)
     tlb = const_u(os.path.join(CORE, "protocols", "ipv4", "reassembly", "segment.rs"), "TLB", "u8")
     consts += ["/-- reassembly/segment.rs `TLB` (timer lower bound, seconds) -/", f"def TLB : Nat := {tlb}"]
     consts += stack_consts()
     consts += ["end Elvis.Gen", ""]
+    write_if_changed("Consts.lean", "\n".join(consts))
+
+
+def main():
+    check_message_immutability()
+    gen_consts()
+    gen_sim_cert()
+    subnet_kernels()
+    codec_extract()
+    extract_codec_b()
+    gen_arp()
     gen_socket_cert()
     gen_dns_cert()
-    write_if_changed("Consts.lean", "\n".join(consts))
+    extract_tcb_consts()
+    extract_modcmp_kernels()
 
 
 if __name__ == "__main__":
